@@ -248,6 +248,11 @@ func (p *ParserZH) consume(validTypes ...uint8) {
 // expectBlockIndent - detect if the Indent(peek) == Indent(current) + 1
 // returns (validBlockIndent, newIndent)
 func (p *ParserZH) expectBlockIndent() (bool, int) {
+	// the end of the text is no line of a block: a header followed only by an indented blank
+	// line (or comment) has no block at all, just as when the text ends right after the colon
+	if p.peek().Type == TypeEOF {
+		return false, 0
+	}
 	var peekLine = p.StartLineIdxP2
 	var currLine = p.StartLineIdxP1
 
